@@ -12,10 +12,14 @@
 //	rate <scheme> <host> <path|-> <num>/<den> | ready … 0|1           -> ok | err notfound   (scripted meter of that server)
 //	adv <ns>                                                         -> ok
 //	serve-remove <scheme> <host> <path|->                            -> <serve output> ; <remove output>   (RemoveServer issued while the request's adjustment pushes weights)
+//	remove-serve <scheme> <host> <path|->                            -> <remove output> ; <serve output>   (request issued while RemoveServer is between balancer and record)
+//	serve-serve                                                      -> <serve> ; weights … ; <serve> ; weights …   (second request issued while the first one's adjustment finishes its push)
+//	upsert … meterfail=1                                             -> err meter when the rebalancer has to create a meter (its factory fails)
 //	race <pairs> <reqs>                                              -> race ok | race nonmember=<n>   (add+remove of a reserved server racing with requests)
 package main
 
 import (
+	"errors"
 	"fmt"
 	"net/http"
 	"net/http/httptest"
@@ -63,6 +67,10 @@ type h struct {
 	mutate  string
 	called  bool
 	errKind string
+	// several requests in flight (serve-serve, remove-serve)
+	capMu    sync.Mutex
+	caps     map[string]*capture
+	failNext bool // the next newMeter call fails
 }
 
 func pth(p string) string {
@@ -112,7 +120,35 @@ func allKV(f []string) bool {
 	return true
 }
 
+// capture of one of several concurrent requests (identified by the X-Vreq header)
+type capture struct {
+	called  bool
+	seen    *url.URL
+	seenStr string
+	errKind string
+}
+
+func (s *h) capFor(req *http.Request) *capture {
+	id := req.Header.Get("X-Vreq")
+	if id == "" {
+		return nil
+	}
+	s.capMu.Lock()
+	defer s.capMu.Unlock()
+	c := s.caps[id]
+	if c == nil {
+		c = &capture{}
+		s.caps[id] = c
+	}
+	return c
+}
+
 func (s *h) downstream(w http.ResponseWriter, req *http.Request) {
+	if c := s.capFor(req); c != nil {
+		c.called, c.seen, c.seenStr = true, req.URL, ustr(req.URL)
+		w.WriteHeader(http.StatusOK)
+		return
+	}
 	s.called = true
 	s.seen = req.URL
 	s.seenStr = ustr(req.URL)
@@ -128,8 +164,68 @@ func (s *h) downstream(w http.ResponseWriter, req *http.Request) {
 }
 
 func (s *h) onError(w http.ResponseWriter, req *http.Request, err error) {
+	if c := s.capFor(req); c != nil {
+		c.errKind = errKind(err)
+		w.WriteHeader(http.StatusInternalServerError)
+		return
+	}
 	s.errKind = errKind(err)
 	w.WriteHeader(http.StatusInternalServerError)
+}
+
+// request issues one request tagged id and returns a function giving its canonical output once it is done
+func (s *h) request(id string) (done chan struct{}, out func() string) {
+	rec := httptest.NewRecorder()
+	req := httptest.NewRequest(http.MethodGet, "http://front.example/req", nil)
+	req.Header.Set("X-Vreq", id)
+	s.capMu.Lock()
+	if s.caps == nil {
+		s.caps = map[string]*capture{}
+	}
+	delete(s.caps, id)
+	s.capMu.Unlock()
+	done = make(chan struct{})
+	go func() {
+		defer close(done)
+		s.fr.ServeHTTP(rec, req)
+	}()
+	return done, func() string {
+		c := s.capFor(req)
+		if !c.called {
+			return fmt.Sprintf("%d %s", rec.Code, c.errKind)
+		}
+		al := "fresh"
+		for _, u := range s.fr.Servers() {
+			if u == c.seen {
+				al = "alias"
+			}
+		}
+		return fmt.Sprintf("%d %s %s", rec.Code, c.seenStr, al)
+	}
+}
+
+// weightsRR reads ServerWeight of every server from the RoundRobin itself (no rebalancer lock involved)
+func (s *h) weightsRR() string {
+	var out []string
+	for _, u := range s.rr.Servers() {
+		w, ok := s.rr.ServerWeight(u)
+		if !ok {
+			w = -1
+		}
+		out = append(out, ustr(u)+"="+strconv.Itoa(w))
+	}
+	sort.Strings(out)
+	return strings.Join(append([]string{"weights"}, out...), " ")
+}
+
+func rmStr(err error) string {
+	if err == nil {
+		return "ok"
+	}
+	if strings.Contains(err.Error(), "not found") {
+		return "err notfound"
+	}
+	return "err other_" + strings.ReplaceAll(err.Error(), " ", "_")
 }
 
 func (s *h) Op(f []string) string {
@@ -141,6 +237,7 @@ func (s *h) Op(f []string) string {
 		u := mkURL(f[4:], f[1], f[2], f[3])
 		var err error
 		s.creating = key(u)
+		s.failNext = hx.KVInt(f[4:], "meterfail", 0) == 1
 		if ws, ok := hx.KV(f[4:], "w"); ok {
 			w, e := strconv.Atoi(ws)
 			if e != nil {
@@ -151,9 +248,13 @@ func (s *h) Op(f []string) string {
 			err = s.fr.UpsertServer(u)
 		}
 		s.creating = ""
+		s.failNext = false
 		if err != nil {
 			if strings.Contains(err.Error(), "Weight should be >= 0") {
 				return "err negweight"
+			}
+			if strings.Contains(err.Error(), "meter factory failed") {
+				return "err meter"
 			}
 			return "err other_" + strings.ReplaceAll(err.Error(), " ", "_")
 		}
@@ -274,7 +375,7 @@ func (s *h) Op(f []string) string {
 			s.fr.ServeHTTP(rec, req)
 			rmErr = s.fr.RemoveServer(ru)
 		} else {
-			reached, resume := s.lb.arm()
+			reached, resume := s.lb.arm(holdBeforeFirstUpsert, 0)
 			reqDone := make(chan struct{})
 			go func() {
 				defer close(reqDone)
@@ -321,6 +422,101 @@ func (s *h) Op(f []string) string {
 			delete(s.meters, key(ru))
 		}
 		return a + " ; " + b
+	case "remove-serve":
+		// RemoveServer, and a request issued at the moment the rebalancer has removed the server from the
+		// balancer but has not yet dropped its own record.  Calls are atomic: the outcome must be the
+		// sequential one, the removal then the request.  (The iterator is put back to its reset position at
+		// the end: where a request is while it waits for the lock is not part of the atomic-step model.)
+		if len(f) != 4 {
+			return "bad-op"
+		}
+		ru := mkURL(nil, f[1], f[2], f[3])
+		var rmErr error
+		var a string
+		if s.lb == nil {
+			rmErr = s.fr.RemoveServer(ru)
+			d, out := s.request("r1")
+			<-d
+			a = out()
+		} else {
+			reached, resume := s.lb.arm(holdAfterRemove, 0)
+			rmDone := make(chan error, 1)
+			go func() { rmDone <- s.fr.RemoveServer(ru) }()
+			select {
+			case rmErr = <-rmDone: // no record: the balancer was not called
+				s.lb.disarm()
+				d, out := s.request("r1")
+				<-d
+				a = out()
+			case <-reached:
+				d, out := s.request("r1")
+				select {
+				case <-d: // the request ran to completion in the middle of the removal
+				case <-time.After(25 * time.Millisecond): // it waits for the removal to finish, as it should
+				}
+				close(resume)
+				rmErr = <-rmDone
+				<-d
+				a = out()
+			}
+		}
+		if rmErr == nil {
+			delete(s.meters, key(ru))
+		}
+		if srv := s.rr.Servers(); len(srv) > 0 {
+			_ = s.rr.UpsertServer(srv[0]) // no option: only resets the iterator
+		}
+		// which member the request got depends on whether it selected before or after the removal's reset();
+		// canonical output: only whether it went to a (current) member
+		if p := strings.Fields(a); len(p) == 3 && p[0] == "200" {
+			m := "nonmember:" + p[1]
+			for _, u := range s.fr.Servers() {
+				if ustr(u) == p[1] {
+					m = "member"
+				}
+			}
+			a = p[0] + " " + m + " " + p[2]
+		}
+		return rmStr(rmErr) + " ; " + a
+	case "serve-serve":
+		// two requests; the second is issued at the moment the first one's weight adjustment has pushed its
+		// last weight into the balancer (if it adjusts at all).  Sequential outcome: request, request; the
+		// ServerWeight readings after each are part of the output.
+		if len(f) != 1 {
+			return "bad-op"
+		}
+		var a1, a2, w1, w2 string
+		if s.lb == nil || len(s.rr.Servers()) == 0 {
+			d, out := s.request("r1")
+			<-d
+			a1, w1 = out(), s.weightsRR()
+			d, out = s.request("r2")
+			<-d
+			a2, w2 = out(), s.weightsRR()
+		} else {
+			reached, resume := s.lb.arm(holdAfterNthUpsert, len(s.rr.Servers()))
+			d1, out1 := s.request("r1")
+			select {
+			case <-d1: // no weight push
+				s.lb.disarm()
+				a1, w1 = out1(), s.weightsRR()
+				d2, out2 := s.request("r2")
+				<-d2
+				a2, w2 = out2(), s.weightsRR()
+			case <-reached:
+				w1 = s.weightsRR()
+				d2, out2 := s.request("r2")
+				select {
+				case <-d2: // the second request completed while the first was still adjusting
+				case <-time.After(25 * time.Millisecond):
+				}
+				close(resume)
+				<-d1
+				<-d2
+				a1, a2, w2 = out1(), out2(), s.weightsRR()
+			}
+		}
+		return a1 + " ; " + w1 + " ; " + a2 + " ; " + w2
 	case "race":
 		// administration calls racing with requests: one goroutine adds and removes a reserved server
 		// <pairs> times while another issues <reqs> requests and NextServer calls; every routed URL must be
@@ -444,6 +640,9 @@ func main() {
 		ropts := []roundrobin.RebalancerOption{
 			roundrobin.RebalancerErrorHandler(utilsErr(s.onError)),
 			roundrobin.RebalancerMeter(func() (roundrobin.Meter, error) {
+				if s.failNext {
+					return nil, errors.New("meter factory failed")
+				}
 				m := &meter{ready: s.newReady, key: s.creating}
 				s.meters[s.creating] = m
 				return m, nil
